@@ -164,7 +164,7 @@ func cmdCheck(args []string) int {
 			// query texts are built one at a time: the term constructors share per-function caches
 			textMu.Lock()
 			text := j.fv.smtText(j.q, true)
-			ground := j.fv.smtGround(j.q)
+			ground := j.fv.smtGround(j.q, false)
 			textMu.Unlock()
 			if *dump {
 				dumpQuery(filepath.Join(outDir, "smt"), j.ob.Name, j.n, text)
@@ -177,7 +177,25 @@ func cmdCheck(args []string) int {
 			if *dump && ground != "" {
 				dumpQuery(filepath.Join(outDir, "smt"), j.ob.Name+".ground", j.n, ground)
 			}
-			r := solve2(text, ground, to, thorough && !j.ob.Cover)
+			r := solve2(text, ground, "", to, thorough && !j.ob.Cover)
+			if r.result != "unsat" && r.result != "sat" && !j.ob.Cover {
+				// second attempt: the instantiated text with the extended heuristics (larger and
+				// slower to build, so only for what the first attempt left open)
+				textMu.Lock()
+				groundExt := j.fv.smtGround(j.q, true)
+				textMu.Unlock()
+				if groundExt != "" && groundExt != ground {
+					if *dump {
+						dumpQuery(filepath.Join(outDir, "smt"), j.ob.Name+".groundx", j.n, groundExt)
+					}
+					r2 := solve2("", "", groundExt, to, false)
+					if r2.result == "unsat" {
+						r2.ms += r.ms
+						r2.all = r.all
+						r = r2
+					}
+				}
+			}
 			j.q.Result, j.q.Solver, j.q.Ms, j.q.Model, j.q.SMT = r.result, r.solver, r.ms, r.model, text
 			if r.result != "unsat" && r.result != "sat" && r.groundSat {
 				j.q.Candidate = true
